@@ -130,6 +130,7 @@ package websocket
 //@ ghostfield Conn.g_ctlCode int
 //@ ghostfield Conn.g_hcalls int
 //@ ghostfield Conn.g_hop int
+//@ ghostfield Conn.g_herr error
 //@ ghostfield Conn.g_mlen int
 
 //@ specfn rfc_violates(stream, int, bool, bool, bool) bool = "rfc.violates"
@@ -147,7 +148,7 @@ package websocket
 
 //@ modset BrMods(c) := c.br.g_rd, c.br.g_buffered, regionid(c.br.g_buf)
 //@ modset CtlMods(c) := c.g_ctlCount, c.g_ctlType, c.g_ctlCode, c.writeErr, c.g_closeSent, c.g_wfailed, c.conn.g_wn, c.conn.g_wire, c.conn.g_wdl, c.g_cs
-//@ modset ReaderMods(c) := c.readRemaining, c.readFinal, c.readLength, c.readMaskPos, c.readMaskKey, c.readDecompress, c.g_hcalls, c.g_hop, c.g_mlen, BrMods(c), CtlMods(c)
+//@ modset ReaderMods(c) := c.readRemaining, c.readFinal, c.readLength, c.readMaskPos, c.readMaskKey, c.readDecompress, c.g_hcalls, c.g_hop, c.g_herr, c.g_mlen, BrMods(c), CtlMods(c)
 
 //@ pred RInv(c) := c.br != nil && c.conn != nil && !held(c.mu) && c.br.g_buf > 0 && c.readRemaining >= 0 && c.br.g_size >= 125 && c.br.g_buffered >= 0 && c.br.g_rd >= 0 && \
 //@     0 <= c.readMaskPos && c.readMaskPos <= 3 && iff(c.newDecompressionReader != nil, c.newCompressionWriter != nil)
@@ -254,6 +255,12 @@ package websocket
 //@ ghost at exit when err == nil && r0 == 0: c.g_mlen := old(c.g_mlen) + c.readRemaining
 //@ ghost after call:handlePong#1: c.g_hcalls := c.g_hcalls + 1
 //@ ghost after call:handlePong#1: c.g_hop := 10
+//@ ghost after call:handlePong#1: c.g_herr := ret
+//@ ghost after call:handlePing#1: c.g_herr := ret
+//@ ghost after call:handleClose#1: c.g_herr := ret
+//@ ensures[C08.handlererr] imp(c.g_hcalls == old(c.g_hcalls) + 1 && c.g_herr != nil, err == c.g_herr)
+//@ ensures[C08.handlerok] imp(c.g_hcalls == old(c.g_hcalls) + 1 && c.g_herr == nil && c.g_hop != 8, err == nil && r0 == c.g_hop)
+//@ ensures[C08.closeerr] imp(c.g_hcalls == old(c.g_hcalls) + 1 && c.g_herr == nil && c.g_hop == 8, err != nil)
 //@ ghost after call:handlePing#1: c.g_hcalls := c.g_hcalls + 1
 //@ ghost after call:handlePing#1: c.g_hop := 9
 //@ ghost after call:handleClose#1: c.g_hcalls := c.g_hcalls + 1
@@ -808,6 +815,8 @@ package websocket
 //@ ensures[C18.port80] imp(len(hostPort) > len(u.Host) && !(streq(u.Scheme, "wss") || streq(u.Scheme, "https")), hostPort[len(u.Host)] == ':' && hostPort[len(u.Host)+1] == '8' && hostPort[len(u.Host)+2] == '0')
 
 //@ func checkSameOrigin
+//@ bind ou,perr after call:Parse#1
+//@ assert at return#2[C13.unparsable]: perr != nil && !result
 //@ tags C07 C12 C13
 //@ assert at return#1[C13.noorigin]: len(origin) == 0
 //@ assert at call:equalASCIIFold#1[C13.args]: arg0 == u.Host && arg1 == r.Host && len(origin) > 0 && err == nil
@@ -1034,6 +1043,9 @@ package websocket
 //@ func generateChallengeKey
 //@ tags C07 C14
 //@ assert at call:ReadFull#1[C14.freshkey]: arg0 == rand.Reader && len(arg1) == 16
+//@ bind rn,rerr after call:ReadFull#1
+//@ assert at return#1[C14.freshkey]: rerr != nil && r1 == rerr
+//@ assert at return#2[C14.freshkey]: rerr == nil && r1 == nil
 
 //@ func (*Dialer).DialContext
 //@ alias req := arg0@call:Write#1
